@@ -6,13 +6,86 @@ package main
 //   c20HiddenPrefix        second argument of every strings.HasPrefix(f.Name(), …) in both functions (must be one value)
 //   c20ExecMask            the mask of `f.Mode()&<mask> == 0` in CheckExecutablePermissions
 //   c20RootExempt          the directory test of the walk callback is guarded by `path != dir`
-// plus the lock-free step skeleton of the walk callback and of Manager.Init (tie T3).
+//   c20ProcessState        package-level variables (other than sentinel errors) that the scan
+//                          (RecursiveGetExecutablePaths, RecursiveCheckLibDirectory, checkExecutableHookFile,
+//                          CheckExecutablePermissions) or Manager.Init / loadHook / NewHookManager mention: what one
+//                          start of a hook manager could leave behind for the next start in the same process
+// plus the lock-free step skeleton of the walk callback, of Manager.Init and of the legacy (v0) config
+// conversion (tie T3).
 
 import (
 	"go/ast"
 	"go/token"
+	"os"
+	"path/filepath"
+	"sort"
 	"strconv"
+	"strings"
 )
+
+// c20PkgVars: the package-level `var` names of all non-test files of a package directory; sentinel
+// errors (`= errors.New(...)`) are values, not state
+func c20PkgVars(dir string) map[string]bool {
+	res := map[string]bool{}
+	ents, err := os.ReadDir(filepath.Join(repo, dir))
+	if err != nil {
+		return res
+	}
+	for _, e := range ents {
+		if e.IsDir() || !strings.HasSuffix(e.Name(), ".go") || strings.HasSuffix(e.Name(), "_test.go") {
+			continue
+		}
+		f := parse(filepath.Join(dir, e.Name()))
+		if f == nil {
+			continue
+		}
+		for _, d := range f.Decls {
+			gd, ok := d.(*ast.GenDecl)
+			if !ok || gd.Tok != token.VAR {
+				continue
+			}
+			for _, sp := range gd.Specs {
+				vs := sp.(*ast.ValueSpec)
+				for i, n := range vs.Names {
+					if n.Name == "_" {
+						continue
+					}
+					if i < len(vs.Values) {
+						if c, ok := vs.Values[i].(*ast.CallExpr); ok && exprStr(c.Fun) == "errors.New" {
+							continue
+						}
+					}
+					res[n.Name] = true
+				}
+			}
+		}
+	}
+	return res
+}
+
+// c20Mentions: which of vars the function body mentions (an identifier that is not a selector's field
+// and is not shadowed by a parameter / local of the same name is good enough here: over-approximation)
+func c20Mentions(fd *ast.FuncDecl, vars map[string]bool, out map[string]bool) {
+	if fd == nil || fd.Body == nil {
+		return
+	}
+	ast.Inspect(fd.Body, func(n ast.Node) bool {
+		if se, ok := n.(*ast.SelectorExpr); ok {
+			// x.f: only x can be a package-level variable of this package
+			ast.Inspect(se.X, func(m ast.Node) bool {
+				if id, ok := m.(*ast.Ident); ok && vars[id.Name] {
+					out[id.Name] = true
+				}
+				return true
+			})
+			return false
+		}
+		if id, ok := n.(*ast.Ident); ok && vars[id.Name] {
+			out[id.Name] = true
+		}
+		return true
+	})
+}
 
 const c20File = "pkg/utils/file/file.go"
 
@@ -158,6 +231,29 @@ func c20Facts(l *leanDefs) {
 	l.def("c20HiddenPrefix", "String", strconv.Quote(pfx), c20File+": strings.HasPrefix(f.Name(), …)")
 	l.def("c20ExecMask", "Nat", strconv.FormatInt(mask, 10), c20File+": CheckExecutablePermissions")
 	l.def("c20RootExempt", "Bool", strconv.FormatBool(rootExempt), c20File+": walk callback guards the directory test with path != dir")
+	state := map[string]bool{}
+	fileVars := c20PkgVars("pkg/utils/file")
+	for _, fn := range []string{"RecursiveGetExecutablePaths", "RecursiveCheckLibDirectory", "checkExecutableHookFile", "CheckExecutablePermissions"} {
+		fd := findFunc(c20File, "", fn)
+		if fd == nil {
+			stale = true
+		}
+		c20Mentions(fd, fileVars, state)
+	}
+	hookVars := c20PkgVars("pkg/hook")
+	for _, fn := range [][2]string{{"Manager", "Init"}, {"Manager", "loadHook"}, {"", "NewHookManager"}} {
+		fd := findFunc("pkg/hook/hook_manager.go", fn[0], fn[1])
+		if fd == nil {
+			stale = true
+		}
+		c20Mentions(fd, hookVars, state)
+	}
+	var stateNames []string
+	for k := range state {
+		stateNames = append(stateNames, k)
+	}
+	sort.Strings(stateNames)
+	l.def("c20ProcessState", "List String", leanStrList(stateNames), "pkg/utils/file, pkg/hook/hook_manager.go: package-level variables the scan / Init mention")
 	l.def("c20FactsStale", "Bool", strconv.FormatBool(stale), c20File+": true when the extractor did not recognise the expected shape")
 }
 
@@ -170,6 +266,9 @@ func init() {
 		skelTarget{Name: "Manager.loadHook", File: "pkg/hook/hook_manager.go", Recv: "Manager", Func: "loadHook",
 			Fields: []string{},
 			Calls:  []string{"Rel", "NewHook", "execCommandOutput", "LoadConfig"}},
+		skelTarget{Name: "c20.HookConfigV0.ConvertAndCheck", File: "pkg/hook/config/config_v0.go", Recv: "HookConfigV0", Func: "ConvertAndCheck",
+			Fields: []string{"Schedules", "OnKubernetesEvents", "OnStartup"},
+			Calls:  []string{"ConvertOnStartup", "CheckSchedule", "ConvertSchedule", "CheckOnKubernetesEvent"}},
 		skelTarget{Name: "RecursiveGetExecutablePaths", File: c20File, Recv: "", Func: "RecursiveGetExecutablePaths",
 			Fields: []string{},
 			Calls:  []string{"Walk", "IsDir", "HasPrefix", "Contains", "checkExecutableHookFile"}},
